@@ -520,7 +520,7 @@ Qed.
 
 (* ------------------------------------------------------------------ connection state and callbacks *)
 Lemma close_visible : forall s, let s' := close_conn s in
-  connected s' = false /\ conn s' = false /\ last (ann s') true = false.
+  connected s' = false /\ conn s' = false /\ last (ann s') true = false /\ last_error s' = true.
 Proof. intros s. simpl. repeat split. apply last_last. Qed.
 
 Lemma connect_visible : forall s, let s' := connect_ok s in
@@ -637,8 +637,7 @@ Lemma poll_step_bk : forall nxt s p,
   (p = QConnect /\ exists s0, bk s0 = bk s /\ bk r = bk (connect_ok s0)).
 Proof.
   intros nxt s p. unfold poll_step. destruct p; simpl; try (left; repeat split; auto; fail).
-  - left. repeat split; auto.
-  - left. destruct (connected s); simpl; repeat split; auto.
+  - left. destruct (connected s) eqn:C; simpl; repeat split; auto.
   - unfold pop_refuse. destruct (refuse s) as [|[|] rf]; simpl.
     + right. split; [reflexivity|]. exists (set_acc_owner s None). split; reflexivity.
     + left. repeat split; auto.
@@ -679,8 +678,9 @@ Proof.
   assert (CONN : forall s0 r, bk s0 = bk (sh st) -> bk r = bk (connect_ok s0) ->
             cblog r = cblog (sh st) ++ map fst (cbs (sh st)) /\
             cbs r = filter (fun kc => cb_keeps (snd kc)) (cbs (sh st)) /\ connected r = true /\ nconn r = S (nconn (sh st))).
-  { intros s0 r E0 E. rewrite bk_connect_ok in E. unfold bk in E0, E. inversion E0. rewrite H2, LE in E. inversion E.
-    rewrite H3, H4, H0. auto. }
+  { intros s0 r E0 E. rewrite bk_connect_ok in E. unfold bk in E0, E.
+    injection E0 as A1 A2 A3 A4 A5. rewrite A3, LE in E. injection E as B1 B2 B3 B4 B5.
+    repeat split; congruence. }
   unfold Model.step in *. destruct t as [i|].
   - destruct (nth_error (callers st) i) as [c|]; [|congruence].
     destruct (caller_enabled i now (sh st) c); [|congruence].
@@ -706,11 +706,11 @@ Proof. intros k l H. apply filter_In. split; [exact H|reflexivity]. Qed.
 Lemma trigger_shape : forall s r, shape _ bk s r -> In (TRIGGER, CbTrue) (cbs s) -> In (TRIGGER, CbTrue) (cbs r).
 Proof.
   intros s r [E|[(s0 & E0 & E)|[(s0 & E0 & E)|(s0 & E0 & E)]]] H.
-  - unfold bk in E. inversion E. congruence.
-  - rewrite bk_connect_ok in E. unfold bk in E0, E. inversion E0. inversion E. rewrite H7. rewrite <- H4 in H.
-    destruct (last_error s0); [apply keeps_true|]; exact H.
-  - unfold bk in E0, E. simpl in E. inversion E0. inversion E. congruence.
-  - unfold bk in E0, E. simpl in E. inversion E0. inversion E. congruence.
+  - unfold bk in E. injection E as _ _ _ C _. rewrite C. exact H.
+  - rewrite bk_connect_ok in E. unfold bk in E0, E. injection E0 as _ _ _ A4 _. injection E as _ _ _ B4 _.
+    rewrite B4. rewrite <- A4 in H. destruct (last_error s0); [apply keeps_true|]; exact H.
+  - unfold bk in E0, E. simpl in E. injection E0 as _ _ _ A4 _. injection E as _ _ _ B4 _. rewrite B4, A4. exact H.
+  - unfold bk in E0, E. simpl in E. injection E0 as _ _ _ A4 _. injection E as _ _ _ B4 _. rewrite B4, A4. exact H.
 Qed.
 
 Lemma trigger_inv_step : forall st x, trigger_inv st -> trigger_inv (step st x).
